@@ -1109,6 +1109,10 @@ class Process(StateMachine, persistence.Savable, metaclass=ProcessStateMachineMe
         if self.has_terminated():
             return False
 
+        if self._killing is not None:
+            # Being killed: a pause must not supersede the pending kill
+            return False
+
         if self.paused:
             # Already paused
             return True
